@@ -7,7 +7,11 @@
            /\ every node record is available (no operation of the history marks a live node down).
 
    The per-operation theorems are whole-operation theorems (RemoveWorkload and DissociateWorkload including the
-   loops over nodes and ids and the messages), for EVERY world satisfying Inv and EVERY fault position. *)
+   loops over nodes and ids and the messages), for EVERY world satisfying Inv and EVERY fault position.
+   ReplaceWorkload: do_replace_spec gives the three ways the replacement of one workload can end (success; failure
+   before the new workload exists: nothing recorded or removed, old container untouched or restarted; failure after
+   the new workload was deployed: the known finding, old and new both recorded); replace_keeps_Inv: the whole
+   operation keeps Inv unless it reported that third outcome; replace_failed_keeps_old: C11's clause. *)
 From Coq Require Import List Bool Arith ZArith Lia Permutation.
 From Verif Require Import Base.Effects Calcium.World Calcium.Ops Calcium.Run Calcium.EffectsProofs Calcium.OpsProofs Calcium.OpsProofs2 Calcium.InvProofs Calcium.DeployProofs Calcium.DeployProofs2 Calcium.CreateProofs Calcium.CreateProofs2 Calcium.CapProofs Calcium.NodeProofs.
 Import ListNotations.
@@ -641,6 +645,499 @@ Proof.
   - intros y Hy. rewrite Hn in Hy. auto.
 Qed.
 
+(* doRemoveWorkload with force: only the injected fault can make it fail *)
+Lemma do_remove_workload_spec : forall x w k,
+  NoDup (ids (wls w)) -> find_wl w (w_id x) = Some x ->
+  exists w' k' r, crunk (do_remove_workload x true) w k = (w', k', r) /\
+  (r = None -> w' = oth w (del_wl (w_id x) (wls w)) (plugs w) (del_cont (w_id x) (conts w))) /\
+  (r <> None -> k' = None /\ exists l, w' = oth w l (plugs w) (conts w) /\ Permutation l (wls w)).
+Proof.
+  intros x w k Hnd Hx. unfold find_wl in Hx.
+  unfold do_remove_workload, txn, doc, call1, crunk. norm.
+  kcase k.
+  - do 3 eexists. split; [reflexivity|]. split; [discriminate|]. intros _. split; [reflexivity|]. exists (wls w). split; [apply oth_same|reflexivity].
+  - cbn [exec]. look. norm. ncase k.
+    + cbn [exec]. look. rewrite find_del_none. norm.
+      do 3 eexists. split; [reflexivity|]. split; [discriminate|]. intros _. split; [reflexivity|]. eexists. split.
+      * look. reflexivity.
+      * apply del_add_perm; auto.
+    + rewrite eremove_ok by (left; reflexivity). norm.
+      do 3 eexists. split; [reflexivity|]. split; [|congruence]. intros _. look. reflexivity.
+  - cbn [exec]. look. norm. rewrite eremove_ok by (left; reflexivity). norm.
+    do 3 eexists. split; [reflexivity|]. split; [|congruence]. intros _. look. reflexivity.
+Qed.
+
+Lemma prep_node_any : forall n w k, exists k' e, crunk (get_and_prepare_node n) w k = (w, k', e).
+Proof.
+  intros n w k. unfold get_and_prepare_node, prepare_image, doc, call1, crunk. norm.
+  destruct k as [[|k]|]; norm.
+  - do 2 eexists; reflexivity.
+  - cbn [exec]. destruct (find_node w n); norm; [|do 2 eexists; reflexivity].
+    destruct k as [|k]; norm.
+    + cbn [exec]. norm. do 2 eexists; reflexivity.
+    + cbn [exec]. norm. destruct k as [|k]; norm; cbn [exec]; norm; do 2 eexists; reflexivity.
+  - cbn [exec]. destruct (find_node w n); norm; [|do 2 eexists; reflexivity].
+    cbn [exec]. norm. cbn [exec]. norm. do 2 eexists; reflexivity.
+Qed.
+
+Lemma estop_step : forall id w k c, find_cont w id = Some c ->
+  crunk (doc (EStop id)) w k =
+  match k with
+  | Some O => (w, None, Some EInjected)
+  | Some (S j) => (set_conts w (upd_cont id CStopped (conts w)), Some j, None)
+  | None => (set_conts w (upd_cont id CStopped (conts w)), None, None)
+  end.
+Proof.
+  intros id w k c H. unfold doc, call1, crunk. destruct k as [[|j]|]; cbn [bind runk is_faultable fail_reply err_of]; try reflexivity;
+    cbn [exec]; rewrite H; reflexivity.
+Qed.
+
+Lemma estart_none : forall id w c, find_cont w id = Some c ->
+  crunk (doc (EStart id)) w None = (set_conts w (upd_cont id CRunning (conts w)), None, None).
+Proof. intros id w c H. unfold doc, call1, crunk. cbn [bind runk is_faultable]. cbn [exec]. rewrite H. reflexivity. Qed.
+
+Lemma find_cont_upd_other : forall l id id' st, find (fun y => wid_eqb (c_id y) id') l = None ->
+  find (fun y => wid_eqb (c_id y) id') (upd_cont id st l) = None \/ id = id'.
+Proof.
+  intros l id id' st H. destruct (wid_eqb id id') eqn:E; [right; apply wid_eqb_eq; exact E|left].
+  induction l as [|y t IH]; simpl in *; [reflexivity|].
+  destruct (wid_eqb (c_id y) id') eqn:E2; [discriminate|].
+  destruct (wid_eqb (c_id y) id) eqn:E3; simpl; [rewrite E|rewrite E2]; apply IH; exact H.
+Qed.
+
+Lemma find_cont_upd_same : forall l id st c, find (fun y => wid_eqb (c_id y) id) l = Some c ->
+  find (fun y => wid_eqb (c_id y) id) (upd_cont id st l) = Some (mkCont id st).
+Proof.
+  induction l as [|y t IH]; intros id st c H; simpl in *; [discriminate|].
+  destruct (wid_eqb (c_id y) id) eqn:E; simpl; [rewrite wid_eqb_refl; reflexivity|rewrite E; eapply IH; eauto].
+Qed.
+
+Ltac rw H := let Hs := fresh in pose proof H as Hs; unfold oerr in Hs; unfold oerr; rewrite Hs; clear Hs.
+
+(* the three ways doReplaceWorkload can end *)
+Definition new_of (opi index : nat) (old : wl) : wl := mkWl (mkWid opi (w_node old) index) (w_node old) (w_pod old) (w_res old).
+
+Record replace_post (opi index : nat) (old : wl) (w w' : world) (r : option wid * bool * oerr) : Prop := {
+  rp_pods : pods w' = pods w; rp_nodes : nodes w' = nodes w; rp_plugs : plugs w' = plugs w;
+  rp_strict : strict_remove w' = strict_remove w; rp_out : out w' = out w;
+  (* success: the old workload is gone (record and container), the new one is recorded and running on the old allocation *)
+  rp_ok : snd r = None ->
+     fst r = (Some (w_id (new_of opi index old)), true) /\
+     wls w' = del_wl (w_id old) (wls w ++ [new_of opi index old]) /\
+     conts w' = del_cont (w_id old) (upd_cont (w_id old) CStopped (conts w) ++ [mkCont (w_id (new_of opi index old)) CRunning]);
+  (* failure before the new workload exists: nothing is recorded or removed, the old container is untouched or (re)started *)
+  rp_fail : snd r <> None -> fst (fst r) = None ->
+     snd (fst r) = false /\ wls w' = wls w /\
+     (conts w' = conts w \/ conts w' = upd_cont (w_id old) CRunning (conts w) \/
+      conts w' = upd_cont (w_id old) CRunning (upd_cont (w_id old) CStopped (conts w)));
+  (* failure after the new workload was deployed: only the removal of the old one can have failed (the known
+     finding): old AND new are recorded, the old container is restarted *)
+  rp_window : snd r <> None -> fst (fst r) <> None ->
+     fst r = (Some (w_id (new_of opi index old)), false) /\
+     Permutation (wls w') (wls w ++ [new_of opi index old]) /\
+     conts w' = upd_cont (w_id old) CRunning (upd_cont (w_id old) CStopped (conts w) ++ [mkCont (w_id (new_of opi index old)) CRunning]);
+}.
+
+Theorem do_replace_spec : forall opi index old w k c0,
+  NoDup (ids (wls w)) -> find_wl w (w_id old) = Some old -> find_cont w (w_id old) = Some c0 ->
+  find_wl w (w_id (new_of opi index old)) = None -> find_cont w (w_id (new_of opi index old)) = None ->
+  exists w' k' r, crunk (do_replace opi index old) w k = (w', k', r) /\ replace_post opi index old w w' r.
+Proof.
+  intros opi index old w k c0 Hnd Hold Hc0 Hfw Hfc.
+  assert (Hne : wid_eqb (w_id old) (w_id (new_of opi index old)) = false).
+  { destruct (wid_eqb (w_id old) (w_id (new_of opi index old))) eqn:E; [|reflexivity]. apply wid_eqb_eq in E. rewrite <- E in Hfw. congruence. }
+  set (new := new_of opi index old) in *.
+  unfold do_replace. rewrite crunk_bind.
+  destruct (prep_node_any (w_node old) w k) as [k1 [e H1]]. rewrite H1.
+  destruct e as [e|].
+  { rewrite crunk_ret. do 3 eexists. split; [reflexivity|]. constructor; cbn [fst snd]; try reflexivity; try congruence.
+    intros _ _. auto. }
+  fold new. change (mkWid opi (w_node old) index) with (w_id new).
+  rewrite crunk_bind. unfold txn_s at 1. rewrite crunk_bind. rewrite crunk_bind.
+  rw (estop_step (w_id old) w k1 c0 Hc0).
+  destruct k1 as [[|k1]|].
+  - (* stop fails: the old container is started again *)
+    rewrite crunk_ret. cbn [snd fst]. rewrite crunk_bind. rw (estart_none (w_id old) w c0 Hc0). rewrite !crunk_ret.
+    do 3 eexists. split; [reflexivity|]. constructor; cbn [fst snd pods nodes plugs strict_remove out wls conts set_conts]; try reflexivity; try congruence.
+    intros _ _. auto.
+  - rewrite crunk_ret. cbn [snd fst]. rewrite crunk_bind. unfold txn_s at 1. rewrite crunk_bind. rewrite crunk_bind.
+    clear H1. generalize (Some k1). intros kk. 
+    set (w1 := set_conts w (upd_cont (w_id old) CStopped (conts w))).
+    change (mkWl (w_id new) (w_node old) (w_pod old) (w_res old)) with new.
+    assert (Hfw1 : find_wl w1 (w_id new) = None) by exact Hfw.
+    assert (Hfc1 : find_cont w1 (w_id new) = None).
+    { unfold find_cont, w1. cbn [conts set_conts]. destruct (find_cont_upd_other (conts w) (w_id old) (w_id new) CStopped Hfc) as [E|E]; [exact E|].
+      rewrite E, wid_eqb_refl in Hne. discriminate. }
+    destruct (deploy_one_spec new None w1 kk Hfw1 Hfc1) as [w2 [k2 [r2 [H2 [Hok2 Hfail2]]]]].
+    rw H2. rewrite crunk_ret. cbn [snd fst].
+    destruct r2 as [e2|].
+    + (* the new workload could not be deployed: the old container is started again *)
+      destruct (Hfail2 ltac:(discriminate)) as [[Hp [Hn [Hpl [Ho [Hs [Hsc [Hw Hc]]]]]]] ->].
+      unfold w1 in Hp, Hn, Hpl, Ho, Hs, Hw, Hc; cbn [pods nodes plugs strict_remove out wls conts set_conts] in Hp, Hn, Hpl, Ho, Hs, Hw, Hc.
+      rewrite crunk_ret. cbn [snd fst]. rewrite crunk_bind.
+      assert (Hc2 : find_cont w2 (w_id old) = Some (mkCont (w_id old) CStopped)).
+      { unfold find_cont. rewrite Hc. eapply find_cont_upd_same; exact Hc0. }
+      rw (estart_none (w_id old) w2 _ Hc2). rewrite !crunk_ret. cbn [is_ok fst snd].
+      do 3 eexists. split; [reflexivity|]. constructor; cbn [fst snd pods nodes plugs strict_remove out wls conts set_conts]; try congruence.
+      intros _ _. split; [reflexivity|]. split; [rewrite Hw; reflexivity|]. right. right. rewrite Hc. reflexivity.
+    + destruct (Hok2 eq_refl) as [Hp [Hn [Hpl [Ho [Hs [Hsc [Hw Hc]]]]]]].
+      unfold w1 in Hp, Hn, Hpl, Ho, Hs, Hw, Hc; cbn [pods nodes plugs strict_remove out wls conts set_conts] in Hp, Hn, Hpl, Ho, Hs, Hw, Hc.
+      cbn [snd fst is_ok]. rewrite crunk_bind. rewrite crunk_bind.
+      assert (Hnd2 : NoDup (ids (wls w2))).
+      { rewrite Hw. rewrite ids_app. simpl. apply NoDup_app_single; [exact Hnd|apply find_wl_none_notin; exact Hfw]. }
+      assert (Hold2 : find_wl w2 (w_id old) = Some old).
+      { unfold find_wl. rewrite Hw. apply find_app_some. exact Hold. }
+      destruct (do_remove_workload_spec old w2 k2 Hnd2 Hold2) as [w3 [k3 [r3 [H3 [Hok3 Hfail3]]]]].
+      rw H3. rewrite crunk_ret. cbn [snd fst].
+      destruct r3 as [e3|].
+      * (* the known window: the removal of the old workload failed *)
+        destruct (Hfail3 ltac:(discriminate)) as [-> [l [-> Hperm]]].
+        rewrite crunk_ret. cbn [snd fst]. rewrite crunk_bind.
+        assert (Hc3 : find_cont (oth w2 l (plugs w2) (conts w2)) (w_id old) = Some (mkCont (w_id old) CStopped)).
+        { unfold find_cont. cbn [conts oth]. rewrite Hc. apply find_app_some. eapply find_cont_upd_same; exact Hc0. }
+        rw (estart_none (w_id old) _ _ Hc3). rewrite !crunk_ret. cbn [is_ok fst snd].
+        do 3 eexists. split; [reflexivity|]. constructor; cbn [fst snd pods nodes plugs strict_remove out wls conts set_conts oth]; try congruence.
+        intros _ _. split; [reflexivity|]. split; [rewrite Hw in Hperm; exact Hperm|]. rewrite Hc. reflexivity.
+      * rewrite (Hok3 eq_refl). rewrite !crunk_ret. cbn [is_ok fst snd].
+        do 3 eexists. split; [reflexivity|]. constructor; cbn [fst snd pods nodes plugs strict_remove out wls conts set_conts oth]; try congruence.
+        intros _. split; [reflexivity|]. rewrite Hw, Hc. split; reflexivity.
+  - rewrite crunk_ret. cbn [snd fst]. rewrite crunk_bind. unfold txn_s at 1. rewrite crunk_bind. rewrite crunk_bind.
+    clear H1. 
+    set (w1 := set_conts w (upd_cont (w_id old) CStopped (conts w))).
+    change (mkWl (w_id new) (w_node old) (w_pod old) (w_res old)) with new.
+    assert (Hfw1 : find_wl w1 (w_id new) = None) by exact Hfw.
+    assert (Hfc1 : find_cont w1 (w_id new) = None).
+    { unfold find_cont, w1. cbn [conts set_conts]. destruct (find_cont_upd_other (conts w) (w_id old) (w_id new) CStopped Hfc) as [E|E]; [exact E|].
+      rewrite E, wid_eqb_refl in Hne. discriminate. }
+    destruct (deploy_one_spec new None w1 (@None nat) Hfw1 Hfc1) as [w2 [k2 [r2 [H2 [Hok2 Hfail2]]]]].
+    rw H2. rewrite crunk_ret. cbn [snd fst].
+    destruct r2 as [e2|].
+    + (* the new workload could not be deployed: the old container is started again *)
+      destruct (Hfail2 ltac:(discriminate)) as [[Hp [Hn [Hpl [Ho [Hs [Hsc [Hw Hc]]]]]]] ->].
+      unfold w1 in Hp, Hn, Hpl, Ho, Hs, Hw, Hc; cbn [pods nodes plugs strict_remove out wls conts set_conts] in Hp, Hn, Hpl, Ho, Hs, Hw, Hc.
+      rewrite crunk_ret. cbn [snd fst]. rewrite crunk_bind.
+      assert (Hc2 : find_cont w2 (w_id old) = Some (mkCont (w_id old) CStopped)).
+      { unfold find_cont. rewrite Hc. eapply find_cont_upd_same; exact Hc0. }
+      rw (estart_none (w_id old) w2 _ Hc2). rewrite !crunk_ret. cbn [is_ok fst snd].
+      do 3 eexists. split; [reflexivity|]. constructor; cbn [fst snd pods nodes plugs strict_remove out wls conts set_conts]; try congruence.
+      intros _ _. split; [reflexivity|]. split; [rewrite Hw; reflexivity|]. right. right. rewrite Hc. reflexivity.
+    + destruct (Hok2 eq_refl) as [Hp [Hn [Hpl [Ho [Hs [Hsc [Hw Hc]]]]]]].
+      unfold w1 in Hp, Hn, Hpl, Ho, Hs, Hw, Hc; cbn [pods nodes plugs strict_remove out wls conts set_conts] in Hp, Hn, Hpl, Ho, Hs, Hw, Hc.
+      cbn [snd fst is_ok]. rewrite crunk_bind. rewrite crunk_bind.
+      assert (Hnd2 : NoDup (ids (wls w2))).
+      { rewrite Hw. rewrite ids_app. simpl. apply NoDup_app_single; [exact Hnd|apply find_wl_none_notin; exact Hfw]. }
+      assert (Hold2 : find_wl w2 (w_id old) = Some old).
+      { unfold find_wl. rewrite Hw. apply find_app_some. exact Hold. }
+      destruct (do_remove_workload_spec old w2 k2 Hnd2 Hold2) as [w3 [k3 [r3 [H3 [Hok3 Hfail3]]]]].
+      rw H3. rewrite crunk_ret. cbn [snd fst].
+      destruct r3 as [e3|].
+      * (* the known window: the removal of the old workload failed *)
+        destruct (Hfail3 ltac:(discriminate)) as [-> [l [-> Hperm]]].
+        rewrite crunk_ret. cbn [snd fst]. rewrite crunk_bind.
+        assert (Hc3 : find_cont (oth w2 l (plugs w2) (conts w2)) (w_id old) = Some (mkCont (w_id old) CStopped)).
+        { unfold find_cont. cbn [conts oth]. rewrite Hc. apply find_app_some. eapply find_cont_upd_same; exact Hc0. }
+        rw (estart_none (w_id old) _ _ Hc3). rewrite !crunk_ret. cbn [is_ok fst snd].
+        do 3 eexists. split; [reflexivity|]. constructor; cbn [fst snd pods nodes plugs strict_remove out wls conts set_conts oth]; try congruence.
+        intros _ _. split; [reflexivity|]. split; [rewrite Hw in Hperm; exact Hperm|]. rewrite Hc. reflexivity.
+      * rewrite (Hok3 eq_refl). rewrite !crunk_ret. cbn [is_ok fst snd].
+        do 3 eexists. split; [reflexivity|]. constructor; cbn [fst snd pods nodes plugs strict_remove out wls conts set_conts oth]; try congruence.
+        intros _. split; [reflexivity|]. rewrite Hw, Hc. split; reflexivity.
+Qed.
+
+(* ---- one workload of ReplaceWorkload, under its lock ---- *)
+Definition replace_block (opi index : nat) (id : wid) : cprog (option wid * bool * oerr) :=
+  x <- call1 (SGetWorkloads [id]) ;;
+  match x with
+  | RWls (old :: _) =>
+    a <- acquire [LWl (w_id old)] [] ;;
+    match fst a with
+    | Some e => release (snd a) ;;; Ret (None, false, Some e)
+    | None => t <- do_replace opi index old ;; release (snd a) ;;; Ret t
+    end
+  | RWls [] => Ret (None, false, Some ENatural)
+  | RErr e => Ret (None, false, Some e)
+  | _ => Ret (None, false, Some ENatural)
+  end.
+
+Lemma replace_loop_unfold : forall opi index id rest,
+  replace_loop opi index (id :: rest) =
+  (r <- replace_block opi index id ;; send (MReplace id (fst (fst r)) (snd (fst r)) (snd r)) ;;; replace_loop opi (S index) rest).
+Proof. reflexivity. Qed.
+
+Definition early_fail (r : option wid * bool * oerr) : Prop := fst (fst r) = None /\ snd (fst r) = false /\ snd r <> None.
+
+Lemma replace_block_spec : forall opi index id w k,
+  NoDup (ids (wls w)) -> (forall x, In x (wls w) -> exists c, find_cont w (w_id x) = Some c) ->
+  (forall n, find_wl w (mkWid opi n index) = None /\ find_cont w (mkWid opi n index) = None) ->
+  exists w1 k1 r, crunk (replace_block opi index id) w k = (w1, k1, r) /\
+    ((w1 = w /\ early_fail r) \/
+     (exists old, find_wl w id = Some old /\ w_id old = id /\ replace_post opi index old w w1 r)).
+Proof.
+  intros opi index id w k Hnd Hcont Hfresh. unfold replace_block. rewrite crunk_bind.
+  assert (Hearly : forall e kk, exists w1 k1 r, crunk (Ret (None, false, Some e) : cprog (option wid * bool * oerr)) w kk = (w1, k1, r) /\
+    ((w1 = w /\ early_fail r) \/ (exists old, find_wl w id = Some old /\ w_id old = id /\ replace_post opi index old w w1 r))).
+  { intros. rewrite crunk_ret. do 3 eexists. split; [reflexivity|]. left. split; [reflexivity|]. repeat split. discriminate. }
+  assert (Hget : exists k0, crunk (call1 (SGetWorkloads [id])) w k = (w, k0, match k with Some O => RErr EInjected | _ =>
+            match find_wl w id with Some x => RWls [x] | None => RErr ENatural end end)).
+  { unfold call1, crunk. destruct k as [[|j]|]; cbn [runk is_faultable fail_reply]; [eexists; reflexivity| |];
+      cbn [exec forallb flat_map]; destruct (find_wl w id); eexists; reflexivity. }
+  destruct Hget as [k0 Hget]. rewrite Hget.
+  destruct k as [[|j]|]; [apply Hearly| |].
+  all: destruct (find_wl w id) as [old|] eqn:Hold; [|apply Hearly].
+  all: rewrite crunk_bind; destruct (acquire_neutral [LWl (w_id old)] [] w k0) as [k1 [a [Ha _]]]; rewrite Ha;
+       destruct (fst a) as [e|];
+       [ rewrite crunk_bind; destruct (release_neutral (snd a) w k1) as [k2 Hr]; rewrite Hr; apply Hearly | ].
+  all: destruct (find_wl_id _ _ _ Hold) as [Hid Hin]; destruct (Hcont old Hin) as [c0 Hc0];
+       destruct (Hfresh (w_node old)) as [Hfw Hfc];
+       rewrite crunk_bind;
+       destruct (do_replace_spec opi index old w k1 c0 Hnd ltac:(rewrite Hid; exact Hold) Hc0 Hfw Hfc) as [w2 [k2 [r [H2 Hpost]]]];
+       rewrite H2; rewrite crunk_bind; destruct (release_neutral (snd a) w2 k2) as [k3 Hr]; rewrite Hr; rewrite crunk_ret;
+       do 3 eexists; (split; [reflexivity|]); right; exists old; auto.
+Qed.
+
+(* ---- the invariant across one replaced workload ---- *)
+Definition fresh_from (opi index : nat) (w : world) : Prop :=
+  forall n i, (index <= i)%nat -> find_wl w (mkWid opi n i) = None /\ find_cont w (mkWid opi n i) = None.
+
+Lemma find_cont_upd_exists : forall l id id' st, (exists c, find (fun y => wid_eqb (c_id y) id') l = Some c) ->
+  exists c, find (fun y => wid_eqb (c_id y) id') (upd_cont id st l) = Some c.
+Proof.
+  induction l as [|y t IH]; intros id id' st [c H]; simpl in *; [discriminate|].
+  destruct (wid_eqb (c_id y) id) eqn:E; simpl.
+  - apply wid_eqb_eq in E. rewrite E in H. destruct (wid_eqb id id'); [eauto|]. apply IH. eauto.
+  - destruct (wid_eqb (c_id y) id'); [eauto|]. apply IH. eauto.
+Qed.
+
+Lemma find_filter_none : forall {A} (f g : A -> bool) l, find f l = None -> find f (filter g l) = None.
+Proof.
+  intros A f g l. induction l as [|y t IH]; simpl; intros H; [reflexivity|].
+  destruct (f y) eqn:E; [discriminate|]. destruct (g y); simpl; [rewrite E|]; auto.
+Qed.
+
+Lemma find_app_none : forall {A} (f : A -> bool) l x, find f l = None -> f x = false -> find f (l ++ [x]) = None.
+Proof. intros A f l x. induction l as [|y t IH]; simpl; intros H Hx; [rewrite Hx; reflexivity|]. destruct (f y); [discriminate|auto]. Qed.
+
+Lemma find_upd_cont_none : forall l id id' st, find (fun y => wid_eqb (c_id y) id') l = None -> id <> id' ->
+  find (fun y => wid_eqb (c_id y) id') (upd_cont id st l) = None.
+Proof. intros l id id' st H Hne. destruct (find_cont_upd_other l id id' st H) as [E|E]; [exact E|contradiction]. Qed.
+
+Lemma Inv_conts : forall w c, Inv w -> (forall id, (exists x, find_cont w id = Some x) -> exists x, find (fun y => wid_eqb (c_id y) id) c = Some x) ->
+  Inv (set_conts w c).
+Proof.
+  intros w c [[H1 H2 H3] H4 H5 H6] Hc. constructor; [constructor|..]; auto.
+  intros x Hx. unfold find_cont. cbn [conts set_conts]. apply Hc. apply H3. exact Hx.
+Qed.
+
+Lemma Inv_core : forall w w', Inv w -> nodes w' = nodes w -> plugs w' = plugs w -> wls w' = wls w ->
+  (forall id, (exists x, find_cont w id = Some x) -> exists x, find_cont w' id = Some x) -> Inv w'.
+Proof.
+  intros w w' [[H1 H2 H3] H4 H5 H6] Hn Hp Hw Hc. constructor; [constructor|..].
+  - rewrite Hw; exact H1.
+  - intros x Hx. rewrite Hw in Hx. unfold find_plug. rewrite Hp. apply H2; exact Hx.
+  - intros x Hx. rewrite Hw in Hx. apply Hc. apply H3; exact Hx.
+  - intros p Hp'. rewrite Hp in Hp'. rewrite Hw. apply H4; exact Hp'.
+  - rewrite Hp; exact H5.
+  - intros y Hy. rewrite Hn in Hy. auto.
+Qed.
+
+Lemma wid_neq_idx : forall opi n m i j, i <> j -> mkWid opi n i <> mkWid opi m j.
+Proof. intros opi n m i j H E. inversion E. contradiction. Qed.
+
+Lemma wid_eqb_neq : forall a b, a <> b -> wid_eqb a b = false.
+Proof. intros a b H. destruct (wid_eqb a b) eqn:E; [|reflexivity]. apply wid_eqb_eq in E. contradiction. Qed.
+
+Lemma replace_post_Inv : forall opi index old w w1 r,
+  Inv w -> fresh_from opi index w -> find_wl w (w_id old) = Some old ->
+  replace_post opi index old w w1 r ->
+  ~ (snd r <> None /\ fst (fst r) <> None) ->
+  Inv w1 /\ fresh_from opi (S index) w1.
+Proof.
+  intros opi index old w w1 r HI Hfr Hold [Hp Hn Hpl Hs Ho Hok Hfail Hwin] Hnw.
+  pose proof (find_wl_id _ _ _ Hold) as [_ Hoin].
+  assert (Hoc : exists c0, find_cont w (w_id old) = Some c0) by (apply (wf_cont w (inv_wf w HI)); exact Hoin).
+  assert (Hold_not_fresh : forall n i, (index <= i)%nat -> w_id old <> mkWid opi n i).
+  { intros n i Hi E. destruct (Hfr n i Hi) as [Hf _]. rewrite <- E in Hf. congruence. }
+  destruct (snd r) as [e|] eqn:Er.
+  - (* failure before the new workload exists *)
+    assert (Hnone : fst (fst r) = None).
+    { destruct (fst (fst r)) eqn:E; [|reflexivity]. exfalso. apply Hnw. split; discriminate. }
+    destruct (Hfail ltac:(discriminate) Hnone) as [_ [Hw Hc]].
+    assert (Hcases : forall id, (forall x, find_cont w id = Some x -> exists x', find_cont w1 id = Some x') /\
+                                (find_cont w id = None -> find_cont w1 id = None)).
+    { intros id. unfold find_cont.
+      destruct Hc as [->|[->| ->]].
+      - split; [eauto|auto].
+      - split.
+        + intros x Hx. apply find_cont_upd_exists. eauto.
+        + intros Hx. destruct (find_cont_upd_other (conts w) (w_id old) id CRunning Hx) as [E|E]; [exact E|].
+          subst id. destruct Hoc as [c0 Hc0]. unfold find_cont in Hc0. congruence.
+      - split.
+        + intros x Hx. apply find_cont_upd_exists. apply find_cont_upd_exists. eauto.
+        + intros Hx. destruct (find_cont_upd_other (conts w) (w_id old) id CStopped Hx) as [E|E].
+          * destruct (find_cont_upd_other _ (w_id old) id CRunning E) as [E2|E2]; [exact E2|].
+            subst id. destruct Hoc as [c0 Hc0]. unfold find_cont in Hc0. congruence.
+          * subst id. destruct Hoc as [c0 Hc0]. unfold find_cont in Hc0. congruence. }
+    split.
+    + apply (Inv_core w w1 HI Hn Hpl Hw). intros id [x Hx]. apply (proj1 (Hcases id) x Hx).
+    + intros n i Hi. destruct (Hfr n i ltac:(lia)) as [Hf1 Hf2]. split.
+      * unfold find_wl. rewrite Hw. exact Hf1.
+      * apply (proj2 (Hcases _) Hf2).
+  - (* success *)
+    destruct (Hok eq_refl) as [_ [Hw Hc]].
+    set (new := new_of opi index old) in *.
+    assert (Hnewid : w_id new = mkWid opi (w_node old) index) by reflexivity.
+    assert (Hne : w_id old <> w_id new) by (rewrite Hnewid; apply Hold_not_fresh; lia).
+    destruct (Hfr (w_node old) index ltac:(lia)) as [Hfw Hfc]. rewrite <- Hnewid in Hfw, Hfc.
+    assert (Hnd2 : NoDup (ids (wls w ++ [new]))).
+    { rewrite ids_app. simpl. apply NoDup_app_single; [apply (wf_ids w (inv_wf w HI))|apply find_wl_none_notin; exact Hfw]. }
+    assert (Hold2 : find (fun y => wid_eqb (w_id y) (w_id old)) (wls w ++ [new]) = Some old) by (apply find_app_some; exact Hold).
+    split.
+    + destruct HI as [[H1 H2 H3] H4 H5 H6]. constructor; [constructor|..].
+      * rewrite Hw. apply nodup_ids_del. exact Hnd2.
+      * intros x Hx. rewrite Hw in Hx. apply in_del_wl in Hx. destruct Hx as [Hx _]. unfold find_plug. rewrite Hpl.
+        apply in_app_or in Hx. destruct Hx as [Hx|[<-|[]]]; [apply H2; exact Hx|]. apply (H2 old Hoin).
+      * intros x Hx. rewrite Hw in Hx. apply in_del_wl in Hx. destruct Hx as [Hx Hxne]. unfold find_cont. rewrite Hc.
+        rewrite find_cont_del_other by exact Hxne.
+        apply in_app_or in Hx. destruct Hx as [Hx|[<-|[]]].
+        -- destruct (find_cont_upd_exists (conts w) (w_id old) (w_id x) CStopped (H3 x Hx)) as [c Hcx].
+           exists c. apply find_app_some. exact Hcx.
+        -- apply find_cont_app_in. exists (mkCont (w_id new) CRunning). split; [left; reflexivity|reflexivity].
+      * intros p Hp'. rewrite Hpl in Hp'. rewrite Hw.
+        rewrite (sum_on_del _ old _ Hnd2 Hold2). rewrite sum_on_app. rewrite (H4 p Hp').
+        unfold sum_on at 3. simpl. destruct (Nat.eqb (w_node old) (p_node p)); simpl.
+        -- destruct (sum_on (wls w) (p_node p)) as [a b], (w_res old) as [c d]. unfold radd, rsub, rzero; simpl. f_equal; lia.
+        -- destruct (sum_on (wls w) (p_node p)) as [a b]. unfold radd, rsub, rzero; simpl. f_equal; lia.
+      * rewrite Hpl. exact H5.
+      * intros y Hy. rewrite Hn in Hy. auto.
+    + intros n i Hi. destruct (Hfr n i ltac:(lia)) as [Hf1 Hf2]. split.
+      * unfold find_wl. rewrite Hw. unfold del_wl. apply find_filter_none. apply find_app_none; [exact Hf1|].
+        apply wid_eqb_neq. rewrite Hnewid. apply wid_neq_idx. lia.
+      * unfold find_cont. rewrite Hc. unfold del_cont. apply find_filter_none. apply find_app_none.
+        -- apply find_upd_cont_none; [exact Hf2|]. apply Hold_not_fresh. lia.
+        -- cbn [c_id]. apply wid_eqb_neq. rewrite Hnewid. apply wid_neq_idx. lia.
+Qed.
+
+(* ---- the channel only grows, whatever the program and the fault ---- *)
+Lemma exec_out_grows : forall w c, exists l, out (fst (exec w c)) = l ++ out w.
+Proof.
+  intros w c. destruct c; simpl;
+    repeat match goal with
+           | |- context [match ?x with _ => _ end] => destruct x eqn:?; simpl
+           end;
+    try (exists []; reflexivity).
+  eexists [_]. reflexivity.
+Qed.
+
+Lemma crunk_out_grows : forall A (p : cprog A) w k, exists l, out (after p w k) = l ++ out w.
+Proof.
+  intros A p. induction p as [a|c q IH]; intros w k.
+  - exists []. reflexivity.
+  - unfold after, crunk in *. cbn [runk].
+    assert (Hstep : forall r kk, exists l, out (fst (fst (runk call reply world exec fail_reply is_faultable (q r) (fst (exec w c)) kk))) = l ++ out w).
+    { intros r kk. destruct (IH r (fst (exec w c)) kk) as [l Hl]. destruct (exec_out_grows w c) as [l0 Hl0].
+      exists (l ++ l0). rewrite Hl, Hl0. apply app_assoc. }
+    destruct (is_faultable c).
+    + destruct k as [[|j]|].
+      * apply IH.
+      * destruct (exec w c) as [w1 r] eqn:E. specialize (Hstep r (Some j)). simpl in Hstep. exact Hstep.
+      * destruct (exec w c) as [w1 r] eqn:E. specialize (Hstep r None). simpl in Hstep. exact Hstep.
+    + destruct (exec w c) as [w1 r] eqn:E. specialize (Hstep r k). simpl in Hstep. exact Hstep.
+Qed.
+
+(* the message of a workload whose replacement failed AFTER its new workload was deployed: the known finding *)
+Definition is_window (m : msg) : Prop :=
+  match m with MReplace _ (Some _) false (Some _) => True | _ => False end.
+
+Lemma fresh_from_mono : forall opi i j w, (i <= j)%nat -> fresh_from opi i w -> fresh_from opi j w.
+Proof. intros opi i j w H Hf n x Hx. apply Hf. lia. Qed.
+
+Lemma send_exact' : forall m w k, crunk (send m) w k = (set_out w (m :: out w), k, tt).
+Proof. intros. unfold send, ign, doc, call1, crunk. cbn [bind runk exec is_faultable]. reflexivity. Qed.
+
+Lemma replace_loop_Inv : forall opi ids index w k l, Inv w -> fresh_from opi index w ->
+  out (after (replace_loop opi index ids) w k) = l ++ out w ->
+  (forall m, In m l -> ~ is_window m) ->
+  Inv (after (replace_loop opi index ids) w k).
+Proof.
+  intros opi ids. induction ids as [|id rest IH]; intros index w k l HI Hfr Hout Hnw.
+  - exact HI.
+  - revert Hout. rewrite replace_loop_unfold. unfold after. rewrite crunk_bind.
+    destruct (replace_block_spec opi index id w k (wf_ids w (inv_wf w HI)) (wf_cont w (inv_wf w HI)))
+      as [w1 [k1 [r [H1 Hcase]]]].
+    { intros n. apply Hfr. lia. }
+    rewrite H1. rewrite crunk_bind. rewrite send_exact'.
+    set (m0 := MReplace id (fst (fst r)) (snd (fst r)) (snd r)).
+    set (w2 := set_out w1 (m0 :: out w1)).
+    intros Hout.
+    destruct (crunk_out_grows _ (replace_loop opi (S index) rest) w2 k1) as [l' Hl'].
+    unfold after in Hl'.
+    assert (Ho1 : out w1 = out w).
+    { destruct Hcase as [[-> _]|[old [_ [_ Hp]]]]; [reflexivity|apply (rp_out _ _ _ _ _ _ Hp)]. }
+    assert (Hl : l = l' ++ [m0]).
+    { rewrite Hl' in Hout. unfold w2 in Hout. cbn [out set_out] in Hout. rewrite Ho1 in Hout.
+      change (m0 :: out w) with ([m0] ++ out w) in Hout. rewrite app_assoc in Hout. apply app_inv_tail in Hout. auto. }
+    assert (Hm0 : ~ is_window m0) by (apply Hnw; rewrite Hl; apply in_or_app; right; left; reflexivity).
+    assert (H2 : Inv w1 /\ fresh_from opi (S index) w1).
+    { destruct Hcase as [[-> _]|[old [Hold [Hid Hp]]]].
+      - split; [exact HI|eapply fresh_from_mono; [|exact Hfr]; lia].
+      - apply (replace_post_Inv opi index old w w1 r HI Hfr); [rewrite Hid; exact Hold|exact Hp|].
+        intros [Hr Hn]. apply Hm0. unfold m0, is_window.
+        destruct (rp_window _ _ _ _ _ _ Hp Hr Hn) as [Hw _]. rewrite Hw. cbn [fst snd].
+        destruct (snd r); [exact I|congruence]. }
+    destruct H2 as [HI1 Hfr1].
+    apply (IH (S index) w2 k1 l').
+    + apply Inv_out. exact HI1.
+    + exact Hfr1.
+    + exact Hl'.
+    + intros m Hm. apply Hnw. rewrite Hl. apply in_or_app. left; exact Hm.
+Qed.
+
+(* whole ReplaceWorkload, EVERY world satisfying Inv, EVERY fault position: unless some workload's replacement
+   reported a failure after its new workload was deployed (the known finding), the invariant is kept *)
+Theorem replace_keeps_Inv : forall opi idl w k l, Inv w -> fresh_from opi 0 w ->
+  out (after (replace opi idl) w k) = l ++ out w ->
+  (forall m, In m l -> ~ is_window m) ->
+  Inv (after (replace opi idl) w k).
+Proof.
+  intros opi idl w k l HI Hfr. unfold replace, after. rewrite crunk_bind.
+  destruct (crunk (replace_loop opi 0 idl) w k) as [[w1 k1] []] eqn:H1. rewrite send_exact'. cbn [fst out set_out].
+  intros Hout Hnw.
+  destruct (crunk_out_grows _ (replace_loop opi 0 idl) w k) as [l' Hl']. unfold after in Hl'. rewrite H1 in Hl'. cbn [fst] in Hl'.
+  assert (Hl : l = MClose :: l').
+  { rewrite Hl' in Hout. change (MClose :: l' ++ out w) with ((MClose :: l') ++ out w) in Hout. apply app_inv_tail in Hout. auto. }
+  apply Inv_out.
+  pose proof (replace_loop_Inv opi idl 0 w k l' HI Hfr) as HL. unfold after in HL. rewrite H1 in HL. cbn [fst] in HL.
+  apply HL; [exact Hl'|]. intros m Hm. apply Hnw. rewrite Hl. right; exact Hm.
+Qed.
+
+(* C11 for replace: whatever made the replacement of one workload fail, the old workload is still recorded, the
+   plugin's usage is untouched and the old container is untouched or running (again) *)
+Theorem replace_failed_keeps_old : forall opi index old w k c0,
+  NoDup (ids (wls w)) -> find_wl w (w_id old) = Some old -> find_cont w (w_id old) = Some c0 ->
+  find_wl w (w_id (new_of opi index old)) = None -> find_cont w (w_id (new_of opi index old)) = None ->
+  exists w' k' r, crunk (do_replace opi index old) w k = (w', k', r) /\
+    (snd r <> None ->
+       In old (wls w') /\ plugs w' = plugs w /\ nodes w' = nodes w /\
+       (conts w' = conts w \/ find_cont w' (w_id old) = Some (mkCont (w_id old) CRunning))) /\
+    (* and if the new workload was not deployed, nothing else changed either *)
+    (snd r <> None -> fst (fst r) = None -> wls w' = wls w).
+Proof.
+  intros opi index old w k c0 Hnd Hold Hc0 Hfw Hfc.
+  destruct (do_replace_spec opi index old w k c0 Hnd Hold Hc0 Hfw Hfc) as [w' [k' [r [H [Hp Hn Hpl Hs Ho Hok Hfail Hwin]]]]].
+  exists w', k', r. split; [exact H|]. split.
+  - intros Hr. destruct (fst (fst r)) as [nid|] eqn:E.
+    + destruct (Hwin Hr ltac:(discriminate)) as [_ [Hperm Hc]].
+      split; [eapply Permutation_in; [apply Permutation_sym; exact Hperm|apply in_or_app; left; apply find_wl_id in Hold; tauto]|].
+      split; [exact Hpl|]. split; [exact Hn|]. right. unfold find_cont. rewrite Hc.
+      eapply find_cont_upd_same. apply find_app_some. eapply find_cont_upd_same. exact Hc0.
+    + destruct (Hfail Hr eq_refl) as [_ [Hw Hc]].
+      split; [rewrite Hw; apply find_wl_id in Hold; tauto|]. split; [exact Hpl|]. split; [exact Hn|].
+      unfold find_cont. destruct Hc as [->|[->| ->]]; [left; reflexivity| |]; right.
+      * eapply find_cont_upd_same. exact Hc0.
+      * eapply find_cont_upd_same. eapply find_cont_upd_same. exact Hc0.
+  - intros Hr Hnone. destruct (Hfail Hr Hnone) as [_ [Hw _]]. exact Hw.
+Qed.
+
 (* ================================================================== histories *)
 (* One step of a history: an operation of the cluster API and the position of its (at most one) fault among
    the faultable calls the operation makes ([None], or a position beyond the last call: no fault). *)
@@ -654,12 +1151,15 @@ Definition run_hist (w : world) (h : list hstep) : world := fold_left step_world
      and an operation index never used before;
    - remove: the engine's refusal of a running container without force ([strict_remove]) together with an injected
      fault on the compensation would be a second, independent failure;
-   - replace, lambda: not part of this theorem (replace: known finding E1-C10-replace-remove-old-unchecked). *)
-Definition valid_step (w : world) (o : op) : Prop :=
-  match o with
+   - replace: the operation index is fresh, and no workload's replacement reported a failure AFTER its new workload
+     was deployed (message MReplace id (Some new) false (Some err)): that outcome is the known finding
+     E1-C10-replace-remove-old-unchecked, it breaks the invariant (C10_replace_refuted);
+   - lambda: not part of this theorem. *)
+Definition valid_step (w : world) (s : hstep) : Prop :=
+  match fst s with
   | OCreate opi pod count r plan => count <> 0%nat -> create_hyp w opi r plan
   | ORemove ids force => force = true \/ strict_remove w = false
-  | OReplace _ _ => False
+  | OReplace opi idl => fresh_from opi 0 w /\ (forall m, In m (out (step_world w s)) -> ~ is_window m)
   | OLambda _ _ _ _ _ _ _ => False
   | _ => True
   end.
@@ -667,15 +1167,24 @@ Definition valid_step (w : world) (o : op) : Prop :=
 Fixpoint valid_hist (w : world) (h : list hstep) : Prop :=
   match h with
   | [] => True
-  | s :: t => valid_step w (fst s) /\ valid_hist (step_world w s) t
+  | s :: t => valid_step w s /\ valid_hist (step_world w s) t
   end.
 
-Lemma step_keeps_Inv : forall w o k, Inv w -> valid_step w o -> Inv (step_world w (o, k)).
+Lemma step_keeps_Inv : forall w o k, Inv w -> valid_step w (o, k) -> Inv (step_world w (o, k)).
 Proof.
-  intros w o k HI Hv. unfold step_world. cbn [fst snd].
+  intros w o k HI Hv.
   assert (HI' : Inv (prepare_world w o)).
   { unfold prepare_world. destruct o; try (apply Inv_out; exact HI). destruct Hv. }
-  destruct o; cbn [script_of valid_step] in *.
+  destruct o; unfold valid_step in Hv; cbn [fst] in Hv; [| | | | | | | |
+    destruct Hv as [Hfr Hnw]; unfold step_world in *; cbn [fst snd script_of] in *;
+    unfold unit_ok in *; rewrite after_bind in *;
+    match goal with |- Inv (after rok ?W ?K) => change (after rok W K) with W end;
+    match type of Hnw with context [after rok ?W ?K] => change (after rok W K) with W in Hnw end;
+    apply (replace_keeps_Inv opi ids (prepare_world w (OReplace opi ids)) k
+             (out (after (replace opi ids) (prepare_world w (OReplace opi ids)) k)));
+    [exact HI'|exact Hfr|cbn [prepare_world out set_out]; rewrite app_nil_r; reflexivity|exact Hnw]
+  | destruct Hv ];
+  unfold step_world; cbn [fst snd script_of].
   - apply add_pod_keeps_Inv; exact HI'.
   - apply add_node_keeps_Inv; exact HI'.
   - apply remove_node_keeps_Inv; exact HI'.
@@ -687,8 +1196,6 @@ Proof.
   - apply remove_keeps_Inv; [exact HI'|exact Hv].
   - apply dissociate_keeps_Inv; exact HI'.
   - apply realloc_keeps_Inv; exact HI'.
-  - destruct Hv.
-  - destruct Hv.
 Qed.
 
 Theorem history_keeps_Inv : forall h w, Inv w -> valid_hist w h -> Inv (run_hist w h).
